@@ -222,7 +222,9 @@ def check_estimate(Y, X, order, intercept, dof, priors, A, B, c, cov, U_stored, 
                              f"max |A y(-1..-p) + B x + c + u - y| / (1+|y|) = {err_id:.3e} on fitted periods"))
         # --- residual covariance
         cov = np.asarray(cov, dtype=float)
-        if cov.shape != (n, n) or not np.all(np.isfinite(cov)):
+        if dof and T_fit - k <= 0:
+            info["cov_denominator"] = "inconclusive:nonpositive-dof"
+        elif cov.shape != (n, n) or not np.all(np.isfinite(cov)):
             problems.append(("estimate:cov-residuals-shape-or-nan", f"cov_residuals shape {cov.shape}"))
         else:
             S = Uf @ Uf.T
@@ -366,6 +368,20 @@ def simulate(A, B, c, Y, X, U, order):
             v = v + np.asarray(U, dtype=float)[:, t]
         out[:, t] = v
     return out
+
+
+def power_norm(A, n, order, length):
+    """max_j ||T^j||_2, j = 1..length, T the companion matrix: amplification of rounding errors along a simulation"""
+    T = companion(A, n, order)
+    P = np.eye(n * order)
+    worst = 1.0
+    for _ in range(int(length)):
+        P = T @ P
+        nrm = float(np.linalg.norm(P, 2)) if np.all(np.isfinite(P)) else float("inf")
+        worst = max(worst, nrm)
+        if not np.isfinite(worst) or worst > 1e12:
+            return float("inf")
+    return worst
 
 
 def emulate_known_simulate_defects(A, B, c, Y, X, U, order, exog_over_whole_state=False):
